@@ -349,14 +349,19 @@ class TransactionManager(Elaboratable):
             method = conditional_to_infect.pop()
             ready_dependent = {relation.end for relation in method.relations if relation.ready_dependent}
             for dep in method.simultaneous_list:
+                if any(relation.ready_dependent and relation.end is method for relation in dep.relations):
+                    # dep is the body in which `method` is nested, not a body nested in it
+                    continue
                 if dep in ready_dependent and dep in method_map.transactions:
                     # dep is simultaneous with conditionally called method - all called methods of dep are also
-                    # conditionally called
+                    # conditionally called, and so are the bodies nested in dep
                     for called_method in method_map.methods_by_transaction[TBody(dep)]:
                         if called_method not in ret:
                             ret.add(called_method)
                             conditional_to_infect.append(called_method)
-                    ret.add(dep)
+                    if dep not in ret:
+                        ret.add(dep)
+                        conditional_to_infect.append(dep)
                 else:
                     # dep is not ready dependent - semantics unclear
                     raise RuntimeError(
